@@ -90,6 +90,49 @@ def storage_word_slices(ctx, rid, fxs=None):
            "" if ok else f"{[(a.t, a.v, a.gtext()) for a in fxs.find(domain='sync')]}", plain[0].line if plain else 0)
 
 
+def generic_bank_flattening(ctx, rid):
+    """GenericBank.__init__ interpreted (lxs/pyconst.py) on model descriptions: every simple CSR is taken as it is, every compound
+    register is finalised with the bank's bus word and ordering and contributes ALL its bus words, in their order, at its place."""
+    from .. import pyconst
+    from ..pyconst import NS, Native
+    m = ctx.mod(CSR)
+    fn = m.method("GenericBank", "__init__")
+    bad = None
+    n_ev = 0
+    for ordering in ("big", "little"):
+        for busword in (8, 32):
+            for shape in ("sCsC", "Cs", "s", "CC", "ssC"):
+                calls = []
+                desc, want = [], []
+                for k, ch in enumerate(shape):
+                    if ch == "s":
+                        o = NS(size=min(busword, 5), name=f"s{k}", __cls__=("CSR", "_CSRBase"))
+                        desc.append(o)
+                        want.append(o["name"])
+                    else:
+                        subs = [NS(name=f"c{k}w{j}", size=busword, __cls__=("CSR", "_CSRBase")) for j in range(1 + k % 3)]
+                        o = NS(name=f"c{k}", __cls__=("CSRStorage", "_CompoundCSR", "_CSRBase"))
+                        o["finalize"] = Native(lambda bw, od, o=o: calls.append((o["name"], bw, od)))
+                        o["get_simple_csrs"] = Native(lambda subs=subs: list(subs))
+                        desc.append(o)
+                        want += [x["name"] for x in subs]
+                me = NS(submodules=[])
+                try:
+                    pyconst.Interp({"self": me, "description": desc, "busword": busword, "ordering": ordering}, exact=True).run(fn.body)
+                except Exception as ex:     # noqa
+                    ctx.need(False, f"GenericBank.__init__ cannot be interpreted ({type(ex).__name__}: {ex})")
+                n_ev += 1
+                got = [x["name"] for x in me.get("simple_csrs", [])] if isinstance(me.get("simple_csrs"), list) else None
+                exp_calls = [(o["name"], busword, ordering) for o in desc if "finalize" in o]
+                if bad is None and got != want:
+                    bad = f"description {shape} (s = simple CSR, C = compound), busword {busword}, {ordering}: bank words {got}, expected {want}"
+                if bad is None and calls != exp_calls:
+                    bad = f"description {shape}, busword {busword}, {ordering}: compound registers finalised as {calls}, expected {exp_calls}"
+    ctx.analysed["paths"] += n_ev
+    ctx.ob(rid, CSR, "GenericBank.__init__", "bank words = simple CSRs + all bus words of every compound register, in order; compounds finalised "
+                                            "with the bank's bus word and ordering", bad is None, bad or "", fn)
+
+
 def atomic_backstore(ctx, rid, fxs=None):
     """CSRStorage(atomic_write=True): the upper words go to the back-store at their own offset, word 0 commits the whole register.
     Shared with C14: the generated accessors write a multi-word register word by word, an atomic register must then hold what was
@@ -284,6 +327,7 @@ def run(ctx):
     storage_word_slices(ctx, "R2", fxs)
     cm = atomic_backstore(ctx, "R2", fxs)
     last_word_strobes(ctx, "R2", fxs=fxs)
+    generic_bank_flattening(ctx, "R2")
     dev = [a for a in fxs.find(domain="sync", target="self.storage") if a.v == "self.dat_w"]
     ok = len(dev) == 1 and q.EQ(dev[0], B.A("self.we")) and ("write_from_dev", True) in dev[0].pyguards
     ctx.ob("R2", CSR, "CSRStorage.__init__", "device write: separate assignment under self.we", ok, "" if ok else f"{[(a.v, a.gtext()) for a in dev]}")
